@@ -222,3 +222,20 @@ Section Exact.
       + exists (ORound [] RFail). split; [cbn; rewrite Hl, Hw; reflexivity|right; right; right; right; eauto].
   Qed.
 End Exact.
+
+(* ------------------------------------------------------------------ Example: the hypotheses are satisfiable *)
+From SV Require Import Consumer.MoreProofs.
+
+(* one partition on the compacted log of [holes_log], started at offset 13: subscribe, one round with the faithful
+   two-batch answer, the feeder hands the record over, handleResponses keeps the subscription *)
+Definition ex_ops : list op := [OStart 0; ORound [0] (ROk (fun _ => holes_resp)); OTake 0 None; OHandle].
+Definition ex_state : pipe := fold_left (step cfg0) ex_ops (init_pipe (fun _ => st13)).
+
+Example pipeline_example :
+  reach (fun _ => 0) cfg0 (fun _ => holes_log) (fun _ => []) (fun _ => st13) ex_state /\
+  map cm_offset (c_out (ch ex_state 0)) = [17] /\ offset (c_pst (ch ex_state 0)) = 18 /\ w_subs (wk ex_state) = [0].
+Proof.
+  split; [|repeat split; reflexivity]. unfold ex_state, ex_ops. cbn [fold_left].
+  repeat (apply reach_step; [| reflexivity | ]); try exact I; try apply reach_init.
+  cbn [env_ok]. intros q Hq. cbn in Hq. destruct Hq as [<-|[]]. right; right. exact holes_resp_faithful.
+Qed.
